@@ -44,6 +44,9 @@ def run(ctx):
     for stream, kind, n in streams(ctx):
         cases = [gen(ctx, kind) for _ in range(n)]
         R.run_cases(ctx, stream, cases, PROJ, oracle, classify)
+    # the CLI end to end (info yaml, file names, csv files) on a sample of the same generators
+    cli_cases = [gen(ctx, kind) for stream, kind, n in streams(ctx) for _ in range(max(8, n // 25))]
+    R.run_cli_cases(ctx, "cli-end-to-end", cli_cases, classify, only=["output file", "does not contain exactly", "unexpected assembly files"])
 
 
 def search(ctx, broken):
